@@ -154,6 +154,9 @@ func (o *nodeOutputJSON) fromOutput(out *Output) error {
 }
 
 func (o *nodeOutputJSON) toOutput() (*Output, error) {
+	if o == nil || o.ScriptPubKey == nil {
+		return nil, errors.New("output has no scriptPubKey")
+	}
 	out := &Output{}
 	s, err := bscript.NewFromHexString(o.ScriptPubKey.Hex)
 	if err != nil {
@@ -165,6 +168,9 @@ func (o *nodeOutputJSON) toOutput() (*Output, error) {
 }
 
 func (i *nodeInputJSON) toInput() (*Input, error) {
+	if i == nil || i.ScriptSig == nil {
+		return nil, errors.New("input has no scriptSig")
+	}
 	input := &Input{}
 	s, err := bscript.NewFromHexString(i.ScriptSig.Hex)
 	if err != nil {
